@@ -316,3 +316,13 @@ func VHHasKey(f *FSM, k []byte) bool {
 	closer.Close()
 	return true
 }
+
+// VHValueIs reports whether user key k is stored with exactly value v.
+func VHValueIs(f *FSM, k, v []byte) bool {
+	got, closer, err := f.pebble.Load().Get(vhEnc(k))
+	if err != nil {
+		return false
+	}
+	defer closer.Close()
+	return bytes.Equal(got, v)
+}
